@@ -27,6 +27,14 @@ def make_param(ex, st, t, name, root=None):
             raise Unsupported('sort %s must be case-split by the contract (cases=...)' % t.tag)
         if t.tag == 'str':
             return 'str'
+        if t.tag == 'dict_iv':
+            dom = fresh_value(TSet(INT), name + '_keys')
+            kf = z3.Function(fresh_name(name + '_kind'), z3.IntSort(), z3.IntSort())
+            af = z3.Function(fresh_name(name + '_a'), z3.IntSort(), z3.RealSort())
+            bf = z3.Function(fresh_name(name + '_b'), z3.IntSort(), z3.RealSort())
+            ref = st.alloc(SDict(dom, lambda k: IvVal(kf(Z(k)), af(Z(k)), bf(Z(k))), TOpaque('ivval')), 'param')
+            ex.frame_roots[ref.oid] = name
+            return ref
         return ('opaque', name)
     if isinstance(t, TTuple):
         return tuple(make_param(ex, st, e, '%s_%d' % (name, k), root) for k, e in enumerate(t.elts))
@@ -93,6 +101,12 @@ def verify_function(prog, db, q, contract, case=None):
                     env[p] = (fresh_scalar(INT, p + '_lo'), fresh_scalar(INT, p + '_hi'))
                 elif cv == 'triple':
                     env[p] = (fresh_scalar(INT, p + '_a'), fresh_scalar(INT, p + '_b'), fresh_scalar(INT, p + '_c'))
+                elif cv == 'dict':
+                    env[p] = make_param(ex, st, eval_type(ast.parse('DictIv', mode='eval').body), p)
+                elif cv == 'rpair':
+                    env[p] = (fresh_scalar(REAL, p + '_lo'), fresh_scalar(REAL, p + '_hi'))
+                elif cv == 'arr1':
+                    env[p] = make_param(ex, st, TArr('float', 1), p)
                 elif cv == 'empty_dict':
                     env[p] = st.alloc(SDict(SSet.empty(), lambda k: None), 'param')
                     ex.frame_roots[env[p].oid] = p
@@ -129,6 +143,22 @@ def verify_function(prog, db, q, contract, case=None):
         pre = {'env': dict(st.env), 'heap': dict(st.heap), 'ver': dict(st.ver)}
         st.ghost['pre_state'] = pre
         fr.pre_heap = dict(pre['heap'])
+        ex.before_hooks = {}
+        for cl in contract.of('hint'):
+            at = ast.literal_eval(cl.kw['at']) if 'at' in cl.kw else 'return'
+            if at.startswith('before:'):
+                def hook(cur, cl=cl):
+                    for a in cl.args:
+                        h = State(dict(cur.env), cur.heap, cur.ver, cur.pc, cur.ghost)
+                        try:
+                            f = ex.truth(ex.evs(a, h), h)
+                        except Unsupported as u:
+                            if 'unbound name' in str(u):
+                                continue
+                            raise
+                        cur.heap.update({k2: v2 for k2, v2 in h.heap.items() if k2 not in cur.heap})
+                        cur.assume(f)
+                ex.before_hooks.setdefault(at.split(':', 1)[1], []).append(hook)
         o = ex.oblige(st, 'pre-sat', False, fi.node, text='precondition is satisfiable', expect='sat')
         outs = ex.exec_block(fi.node.body, st)
         rt = eval_type(contract.returns) if contract.returns is not None else None
